@@ -440,7 +440,11 @@ func TestConnector(t *testing.T) {
 			}
 			if prior == want && beh["pin/ls"] == "" {
 				classes = append(classes, "already-pinned")
-				if err != nil {
+				if err != nil && cancelAfter > 0 && took >= cancelAfter && strings.Contains(err.Error(), "context") {
+					// the caller's own deadline (5-80 ms) ran out before the
+					// daemon's pin/ls answer came back: the caller asked for that
+					classes = append(classes, "caller-deadline-before-answer")
+				} else if err != nil {
 					t.Fatalf("already pinned as asked, but Pin failed: %v\ncase: %s", err, desc)
 				}
 				if mutating != 0 {
